@@ -652,10 +652,12 @@ func runSenderCase(r *mon.Run, c senderCase) {
 	if failures > 0 && (w.okAfter.Load() > 0 || cancelled) {
 		r.Nontrivial(fmt.Sprintf("%s|%s|%s|%d", c.Target, full, c.Cancel, len(c.Streams)))
 	}
-	if failures > 0 && r.WantSample() && (c.ID%7 == 3 || c.Note != "") {
+	if failures > 0 && r.WantSample() && (c.ID%7 == 3 || c.Note != "") && senderSamples.Add(1) <= 3 { // leave room for the HTTP samples
 		r.Sample(map[string]interface{}{"case": c, "state_at_end": state, "dials": dials, "callbacks": callbacks, "log": log})
 	}
 }
+
+var senderSamples atomic.Int32
 
 // ---------------------------------------------------------------------------------------------
 // enumeration
@@ -755,11 +757,11 @@ func senderCases(r *mon.Run) []senderCase {
 	// exhaustive dial scripts x cancellation points x drawn layouts (direct sender)
 	maxLen, maxF, layouts := 4, 2, 1
 	if r.Thorough() {
-		maxLen, maxF, layouts = 4, 4, 3
+		maxLen, maxF, layouts = 4, 4, 6
 	}
 	scripts := allDialScripts(maxLen, maxF)
-	r.Extra("exhaustive_dial_scripts_upto", maxLen)
-	r.Extra("dial_scripts", len(scripts))
+	r.Extra("exhaustive_dial_scripts_upto", fmt.Sprint(maxLen))
+	r.Extra("dial_scripts", fmt.Sprint(len(scripts)))
 	for _, sc := range scripts {
 		for l := 0; l < layouts; l++ {
 			probe := drawLayout(rng, len(sc))
